@@ -14,7 +14,7 @@ def one(d):
         if p.returncode != 0:
             return d, None, None
         det, ae = {}, []
-        env = dict(os.environ, PYX_REPO=t, PYX_NO_EVIDENCE='1')
+        env = dict(os.environ, PYX_REPO=t, PYX_NO_EVIDENCE='1', PYX_EQUIV_CACHE=t + '-eqc')
         for prop in PROPS:
             o = subprocess.run([PY, '/verif/sa/check.py', prop, '--tier', 'quick'], capture_output=True, text=True, env=env, cwd='/verif')
             lines = [l for l in o.stdout.splitlines() if ' -- ' in l and not l.startswith(('RULE', 'KNOWN-FINDING', '  info'))]
@@ -25,6 +25,7 @@ def one(d):
         return d, det, ae
     finally:
         shutil.rmtree(t, ignore_errors=True)
+        shutil.rmtree(t + '-eqc', ignore_errors=True)
 
 def main():
     subs = sys.argv[1:]
